@@ -201,14 +201,12 @@ var _ *pb.SharedGroupProposal
 //@ ghost delivered int = 0
 //@ ghost encFail int = 0
 //@ ghost settled int = 0
-//@ ghost snaps int = 0
-//@ ghost snapReports int = 0
+//@ ghost needSnap int = 0
 //@ at call Message).Marshal
 //@ set enc = $ret0
 //@ set encOK = ite(isnil($ret1), 1, 0)
 //@ set delivered = 0
 //@ set encFail = encFail + ite(isnil($ret1), 0, 1)
-//@ set snaps = snaps + ite(isnil($ret1) && m.Type == 7, 1, 0)
 //@ end
 //@ at call RaftTransport).getNodeRaftTransportClient
 //@ requires [C05 client-of-the-addressee] $arg1 == m.To
@@ -220,21 +218,23 @@ var _ *pb.SharedGroupProposal
 //@ requires [C05 message-goes-to-its-addressee-under-this-groups-id] haveClient == 1 && encOK == 1 && to == m.To && $arg2 != nil && $arg2.Message == enc && uuidOfBytes($arg2.GroupId) == group.id && delivered == 0
 //@ set delivered = ite(isnil($ret1), 1, 0)
 //@ set settled = settled + ite(isnil($ret1), 1, 0)
+//@ set needSnap = ite(isnil($ret1) && m.Type == 7, 1, needSnap)
 //@ end
 //@ at call RaftGroup).reportUnreachable
 //@ requires [C05 only-undelivered-messages-are-reported-unreachable] $arg1 == m.To && delivered == 0
 //@ set settled = settled + 1
+//@ set needSnap = ite(m.Type == 7, 1, 0)
 //@ end
 //@ at call RaftGroup).reportSnapshot
-//@ requires [C05 snapshot-status-follows-delivery] $arg1 == m.To && m.Type == 7 && ($arg2 == 1) == (delivered == 1)
-//@ set snapReports = snapReports + 1
+//@ requires [C05 snapshot-status-follows-delivery] $arg1 == m.To && m.Type == 7 && ($arg2 == 1) == (delivered == 1) && needSnap == 1
+//@ set needSnap = 0
 //@ end
 //@ requires [wf] this.clusterConn != nil && group != nil && !isnil(ctx)
 //@ ensures [C05 every-message-is-delivered-or-reported-unreachable] settled + encFail == len(messages)
-//@ ensures [C05 every-snapshot-message-gets-one-status-report] snapReports == snaps
+//@ ensures [C05 every-snapshot-message-gets-one-status-report] needSnap == 0
 //@ modifies map(this.clusterConn.conns)
 //@ loop 1
-//@ invariant [C05 every-message-so-far-delivered-or-reported] settled + encFail == rangeindex + 1 && snapReports == snaps
+//@ invariant [C05 every-message-so-far-delivered-or-reported] settled + encFail == rangeindex + 1 && needSnap == 0
 
 // the registered state-machine callbacks may change anything except the raft group's own bookkeeping
 //@ func field:storage/raft.RaftGroup.processFn
